@@ -494,6 +494,100 @@ def disp_other_grid_ops():
     return ops
 
 
+def data_tensor_ops():
+    """method pipelines of the data tensor classes (Image, ImageBatch, FlowField, FlowFields) w.r.t. the wrapped data: the wrapped
+    tensor is a NON-LEAF of the graph (2 * x), so a wrapper that detaches loses the gradient to x"""
+    from deepali.data import FlowField, FlowFields, Image, ImageBatch
+    ops = []
+
+    def other(D):
+        return Grid(size=(8, 7), spacing=(0.75, 1.0), direction=[[0.8, -0.6], [0.6, 0.8]], origin=(1.0, -2.0)) if D == 2 else \
+            Grid(size=(6, 5, 5), spacing=(0.8, 1.2, 0.6), direction=[[1 / 9, -8 / 9, 4 / 9], [4 / 9, 4 / 9, 7 / 9], [-8 / 9, 1 / 9, 4 / 9]], origin=(1.0, -2.0, 0.5))
+
+    def image_op(method, single=False):
+        def build(D, gen):
+            grid = mk_grid(D, gen)
+            x = rnd(gen, *(() if single else (2,)), 2, *grid.shape).requires_grad_(True)
+            coords = rnd(gen, 1, 6, D, lo=-0.8, hi=0.8)
+            kernel = rnd(gen, 3, lo=0.1, hi=1.0)
+
+            def value():
+                im = (Image if single else ImageBatch)(x * 2, grid)
+                if method == "sample(grid)":
+                    r = im.sample(other(D))
+                elif method == "sample(coords)":
+                    r = im.sample(coords if not single else coords[0])
+                elif method == "resize":
+                    r = im.resize(*[n + 2 for n in grid.size()])
+                elif method == "resample":
+                    r = im.resample(*[float(v) * 0.8 for v in grid.spacing()])
+                elif method == "avg_pool":
+                    r = im.avg_pool(2)
+                elif method == "downsample":
+                    r = im.downsample(1)
+                elif method == "upsample":
+                    r = im.upsample(1)
+                elif method == "crop+pad":
+                    r = im.crop(margin=1).pad(margin=2)
+                elif method == "center_crop":
+                    r = im.center_crop(*[n - 2 for n in grid.size()])
+                elif method == "conv":
+                    r = im.conv(kernel)
+                elif method == "rescale":
+                    r = im.rescale(0.0, 1.0)
+                elif method == "normalize":
+                    r = im.normalize()
+                else:
+                    raise KeyError(method)
+                return r.tensor() if hasattr(r, "tensor") else r
+            with torch.no_grad():
+                w = rnd(gen, *value().shape)
+            return (lambda: (value() * w).sum()), [x]
+        return build
+    for m in ("sample(grid)", "sample(coords)", "resize", "resample", "avg_pool", "downsample", "upsample", "crop+pad", "center_crop", "conv"):
+        # (rescale / normalize are not exercised: they treat the data's own min / max as constants by design, so the entries that
+        #  attain the extremes have a different finite difference; intensity normalisation is not among the property's operations)
+        ops.append(Op(f"ImageBatch.{m}", image_op(m), max_coords=12))
+    for m in ("sample(grid)", "resize", "downsample", "conv"):
+        ops.append(Op(f"Image.{m}", image_op(m, single=True), max_coords=12))
+
+    def flow_op(method, single=False):
+        def build(D, gen):
+            grid = mk_grid(D, gen)
+            u = (rnd(gen, *(() if single else (2,)), D, *grid.shape) * 0.15).requires_grad_(True)
+            y = rnd(gen, *(() if single else (2,)), 1, *grid.shape).requires_grad_(True)
+            axes = Axes.CUBE_CORNERS
+
+            def value():
+                fl = (FlowField if single else FlowFields)(u * 2, grid, axes)
+                if method == "exp":
+                    r = fl.exp(steps=3)
+                elif method == "axes(world)":
+                    r = fl.axes(Axes.WORLD)
+                elif method == "axes(grid)":
+                    r = fl.axes(Axes.GRID)
+                elif method == "sample(grid)":
+                    r = fl.sample(other(D))
+                elif method == "curl":
+                    r = fl.curl()
+                elif method == "warp_image":
+                    r = fl.warp_image((Image if single else ImageBatch)(y * 2, grid))
+                else:
+                    raise KeyError(method)
+                return r.tensor()
+            with torch.no_grad():
+                w = rnd(gen, *value().shape)
+            leaves = [u, y] if method == "warp_image" else [u]
+            return (lambda: (value() * w).sum()), leaves
+        return build
+    # (FlowFields.curl / FlowField.curl raise RuntimeError for every input on this tree -- `self.ndim` is the tensor rank -- reported)
+    for m in ("exp", "axes(world)", "axes(grid)", "sample(grid)", "warp_image"):
+        ops.append(Op(f"FlowFields.{m}", flow_op(m), max_coords=12))
+    for m in ("exp", "warp_image", "axes(world)"):
+        ops.append(Op(f"FlowField.{m}", flow_op(m, single=True), max_coords=12))
+    return ops
+
+
 def option_variant_ops():
     """the same operations under their other option values: padding modes and numeric padding values of the samplers, masks and
     reductions of the losses, Euler orders outside the closed forms, sampling modes of warping / expv"""
@@ -681,6 +775,7 @@ def registry():
     ops += loss_class_ops()
     ops += option_variant_ops()
     ops += disp_other_grid_ops()
+    ops += data_tensor_ops()
     return ops
 
 
